@@ -583,10 +583,87 @@ Qed.
 Lemma rev_cons_last {A} (l : list A) e r : rev l = e :: r -> l = rev r ++ [e].
 Proof. intros H. rewrite <- (rev_involutive l), H. reflexivity. Qed.
 
-Lemma core_restart s keep s' : core s -> st_snapidx s <= keep -> restart s keep = Done s' ->
+Lemma core_of_K_nosr s' p l li si sc cm lt ci fi :
+  K s' = (p, l, li, si, sc, cm, lt, ci, fi, None) ->
+  idx_from p l -> li = p + N.of_nat (length l) -> fi <= ci -> ci <= li -> p <= si -> si <= li ->
+  c_index sc <= si -> lt = last (cfgs_above si l) sc ->
+  (cm = lt \/ (c_index cm < c_index lt /\ (cfgs_above si l = [] \/ cm = last (removelast (cfgs_above si l)) sc))) ->
+  (cm = lt \/ ci < c_index lt) -> core s'.
+Proof.
+  destruct s'. unfold K; cbn. intros E. injection E as -> -> -> -> -> -> -> -> -> ->.
+  intros. constructor; cbn; try assumption. exact I.
+Qed.
+
+(* the part of restart after the log has been opened *)
+Definition restart_tail (sb : nstate) (cm lt : config) (ci ct : N) : nstate :=
+  set_commit (set_fsm (set_ldr (set_cnd (set_flr (set_snapbusy (set_closed (set_leader (set_role
+    (set_configs sb cm lt) Follower) 0) false) false) false false) 0 false) None <| st_snapreq := None |>) ci ct) ci.
+
+Lemma restart_tail_fields sb cm lt ci ct :
+  K (restart_tail sb cm lt ci ct) =
+    (st_logprev sb, st_log sb, st_lastidx sb, st_snapidx sb, st_snapcfg sb, cm, lt, ci, ci, None) /\
+  st_ldr (restart_tail sb cm lt ci ct) = None /\ st_term (restart_tail sb cm lt ci ct) = st_term sb /\
+  st_role (restart_tail sb cm lt ci ct) = Follower.
+Proof. repeat split; reflexivity. Qed.
+
+Definition restart_fin (sb : nstate) : outcome nstate :=
+  cc <~ open_configs sb ;;
+  let s2 := set_configs sb (fst cc) (snd cc) in
+  let s3 := set_ldr (set_cnd (set_flr (set_snapbusy (set_closed (set_leader (set_role s2 Follower) 0) false) false) false false) 0 false) None
+              <| st_snapreq := None |> in
+  if 0 <? st_snapidx s3 then
+    Done (set_commit (set_fsm s3 (st_snapidx s3) (st_snapterm s3)) (st_snapidx s3))
+  else Done (set_commit (set_fsm s3 0 0) 0).
+
+Lemma restart_fin_inv sb s' : restart_fin sb = Done s' ->
+  exists cm lt ci ct, open_configs sb = Done (cm, lt) /\ s' = restart_tail sb cm lt ci ct /\ ci = st_snapidx sb.
+Proof.
+  unfold restart_fin. intros H. apply obind_inv in H. destruct H as ([cm lt] & OC & H). cbn [fst snd] in H.
+  cbv zeta in H.
+  match type of H with (if 0 <? ?X then _ else _) = _ => change X with (st_snapidx sb) in H end.
+  destruct (0 <? st_snapidx sb) eqn:Z.
+  - exists cm, lt, (st_snapidx sb), (st_snapterm sb). split; [assumption|]. split; [|reflexivity].
+    inversion H. reflexivity.
+  - exists cm, lt, 0, 0. split; [assumption|]. split; [|lia]. inversion H. reflexivity.
+Qed.
+
+Lemma core_restart_fin sb s' :
+  idx_from (st_logprev sb) (st_log sb) -> st_lastidx sb = st_logprev sb + N.of_nat (length (st_log sb)) ->
+  st_logprev sb <= st_snapidx sb -> st_snapidx sb <= st_lastidx sb -> c_index (st_snapcfg sb) <= st_snapidx sb ->
+  restart_fin sb = Done s' ->
+  core s' /\ st_ldr s' = None /\ st_term s' = st_term sb /\ st_role s' = Follower.
+Proof.
+  intros I1 EL L1 L2 L3 H. apply restart_fin_inv in H. destruct H as (cm & lt & ci & ct & OC & -> & ->).
+  destruct (restart_tail_fields sb cm lt (st_snapidx sb) ct) as (R1 & R2 & R3 & R4).
+  split; [|auto].
+  apply open_configs_spec in OC. destruct OC as (OL & OC).
+  unfold newest_config, prev_config, cfgs in OL, OC.
+  set (cf := cfgs_above (st_snapidx sb) (st_log sb)) in *.
+  assert (LT : cm = lt \/ (c_index cm < c_index lt /\ In lt cf)).
+  { destruct OC as [[E ->]|[NE ->]].
+    - subst lt. rewrite E. left; reflexivity.
+    - subst lt.
+      destruct (list_snoc_cases cf) as [E|(P & x & E)]; [contradiction|]. rewrite E, last_snoc, removelast_snoc.
+      right. split; [|apply in_or_app; right; left; reflexivity].
+      destruct (list_snoc_cases P) as [EP|(P' & y & EP)].
+      + subst P. cbn.
+        assert (Hx : In x cf) by (rewrite E; apply in_or_app; right; left; reflexivity).
+        pose proof (cfgs_above_bounds _ _ _ _ I1 Hx). lia.
+      + rewrite EP, last_snoc. eapply (cfgs_above_last_max _ _ _ _ _ I1 E).
+        rewrite EP. apply in_or_app; right; left; reflexivity. }
+  assert (LTB : In lt cf -> st_snapidx sb < c_index lt).
+  { intros Hin. pose proof (cfgs_above_bounds _ _ _ _ I1 Hin). lia. }
+  assert (CCM : cm = lt \/ (c_index cm < c_index lt /\ (cf = [] \/ cm = last (removelast cf) (st_snapcfg sb)))).
+  { destruct LT as [E|[E1 E2]]; [left; assumption|]. right. split; [assumption|].
+    destruct OC as [[E _]|[_ E]]; [left; assumption|right; assumption]. }
+  eapply core_of_K_nosr; [exact R1|exact I1|exact EL|lia|lia|assumption|lia|assumption|exact OL|exact CCM|].
+  destruct LT as [E|[E1 E2]]; [left; assumption|]. right. apply LTB. assumption.
+Qed.
+
+Lemma core_restart s keep s' : core s -> restart s keep = Done s' ->
   core s' /\ st_ldr s' = None /\ st_term s' = st_term s /\ st_role s' = Follower.
 Proof.
-  intros C Lk H. pose proof C as [H1 H2 H3 H4 H5 H6 H7 H8 H9 H10 H11].
+  intros C H. pose proof C as [H1 H2 H3 H4 H5 H6 H7 H8 H9 H10 H11].
   unfold restart in H.
   destruct (negb _) eqn:T; [discriminate|].
   assert (T1 : keep <= st_logprev s + N.of_nat (length (st_log s)) /\ st_logprev s <= keep)
@@ -595,63 +672,38 @@ Proof.
   set (l' := firstn n (st_log s)) in *.
   assert (Ln : length l' = n) by (apply firstn_length_le; lia).
   assert (I1 : idx_from (st_logprev s) l') by (apply idx_from_firstn; assumption).
-  cbn [st_log st_logprev set_flushed set_log set] in H.
-  assert (EL : fst match rev l' with [] => (st_snapidx s, st_snapterm s) | e :: _ => (e_index e, e_term e) end
-               = st_logprev s + N.of_nat n).
-  { destruct (rev l') as [|e r] eqn:ER.
-    - cbn. apply (f_equal (@length _)) in ER. rewrite rev_length in ER. cbn in ER. lia.
-    - cbn. apply rev_cons_last in ER.
-      assert (Hn : nth_error l' (length (rev r)) = Some e) by (rewrite ER, nth_error_app2, Nat.sub_diag by lia; reflexivity).
-      apply I1 in Hn. rewrite ER, app_length in Ln. cbn in Ln. lia. }
-  apply obind_inv in H. destruct H as ([cm lt] & OC & H). cbn [fst snd] in H.
-  apply open_configs_spec in OC. destruct OC as (OL & OC).
-  match type of OC with context [cfgs ?S] => set (sb := S) in * end.
-  assert (CFb : cfgs sb = cfgs_above (st_snapidx s) l') by reflexivity.
-  assert (SCb : st_snapcfg sb = st_snapcfg s) by reflexivity.
-  assert (LT : c_index cm <= c_index lt /\ (cm = lt \/ (c_index cm < c_index lt /\ In lt (cfgs sb)))).
-  { destruct OC as [[E ->]|[NE ->]].
-    - subst lt. unfold newest_config. rewrite E. cbn. split; [lia|left; reflexivity].
-    - subst lt. unfold newest_config, prev_config.
-      destruct (list_snoc_cases (cfgs sb)) as [E|(P & x & E)]; [contradiction|]. rewrite E, last_snoc, removelast_snoc.
-      assert (c_index (last P (st_snapcfg sb)) < c_index x).
-      { destruct (list_snoc_cases P) as [EP|(P' & y & EP)].
-        - subst P. cbn. try rewrite SCb.
-          assert (Hx : In x (cfgs sb)) by (rewrite E; apply in_or_app; right; left; reflexivity).
-          rewrite CFb in Hx. pose proof (cfgs_above_bounds _ _ _ _ I1 Hx). lia.
-        - rewrite EP, last_snoc. rewrite CFb in E. eapply (cfgs_above_last_max _ _ _ _ _ I1 E).
-          rewrite EP. apply in_or_app; right; left; reflexivity. }
-      split; [lia|]. right. split; [assumption|]. apply in_or_app; right; left; reflexivity. }
-  assert (LTB : In lt (cfgs sb) -> st_snapidx s < c_index lt).
-  { rewrite CFb. intros Hin. pose proof (cfgs_above_bounds _ _ _ _ I1 Hin). lia. }
-  assert (CCM : cm = lt \/ (c_index cm < c_index lt /\ (cfgs sb = [] \/ cm = prev_config sb))).
-  { destruct LT as [_ [E|[E1 E2]]]; [left; assumption|]. right. split; [assumption|].
-    destruct OC as [[E _]|[_ E]]; [left; assumption|right; assumption]. }
-  assert (R : core s' /\ st_ldr s' = None /\ st_term s' = st_term s /\ st_role s' = Follower).
-  { destruct (0 <? st_snapidx _) eqn:Z; inversion H; subst s'; clear H.
-    - split; [|cbn; auto]. constructor; cbn.
-      + exact I1.
-      + rewrite EL, Ln. reflexivity.
-      + lia.
-      + rewrite EL. lia.
-      + assumption.
-      + rewrite EL. lia.
-      + assumption.
-      + exact OL.
-      + exact CCM.
-      + destruct LT as [_ [E|[E1 E2]]]; [left; assumption|]. right. apply LTB. assumption.
-      + exact I.
-    - assert (Z0 : st_snapidx s = 0) by (cbn in Z; lia).
-      split; [|cbn; auto]. constructor; cbn.
-      + exact I1.
-      + rewrite EL, Ln. reflexivity.
-      + lia.
-      + lia.
-      + assumption.
-      + rewrite EL. lia.
-      + assumption.
-      + exact OL.
-      + exact CCM.
-      + destruct LT as [_ [E|[E1 E2]]]; [left; assumption|]. right. apply LTB in E2. lia.
-      + exact I. }
-  exact R.
+  cbv zeta in H.
+  match type of H with obind (open_configs ?S) _ = _ => set (sb := S) in H end.
+  change (restart_fin sb = Done s') in H.
+  match goal with sb := set_log (if ?b then _ else _) _ _ _ _ |- _ => destruct b eqn:Z end.
+  - (* the log ended before the snapshot: reset *)
+    assert (Eb : st_logprev sb = st_snapidx s /\ st_log sb = [] /\ st_snapidx sb = st_snapidx s /\
+                 st_snapcfg sb = st_snapcfg s /\ st_term sb = st_term s /\ st_lastidx sb = st_snapidx s)
+      by (subst sb; repeat split; reflexivity).
+    destruct Eb as (Eb1 & Eb2 & Eb3 & Eb4 & Eb5 & Eb6). clearbody sb.
+    rewrite <- Eb5. apply core_restart_fin; try assumption.
+    + rewrite Eb1, Eb2. apply idx_from_nil.
+    + rewrite Eb1, Eb2, Eb6. cbn. lia.
+    + lia.
+    + lia.
+    + rewrite Eb3, Eb4. assumption.
+  - assert (Eb : st_logprev sb = st_logprev s /\ st_log sb = l' /\ st_snapidx sb = st_snapidx s /\
+                 st_snapcfg sb = st_snapcfg s /\ st_term sb = st_term s /\
+                 st_lastidx sb = fst match rev l' with [] => (st_snapidx s, st_snapterm s) | e :: _ => (e_index e, e_term e) end)
+      by (subst sb; repeat split; reflexivity).
+    destruct Eb as (Eb1 & Eb2 & Eb3 & Eb4 & Eb5 & Eb6). clearbody sb.
+    assert (Zk : st_snapidx s <= st_logprev s + N.of_nat n).
+    { unfold log_lastindex in Z. cbn in Z. fold n in Z. fold l' in Z. rewrite Ln in Z. lia. }
+    assert (EL : st_lastidx sb = st_logprev s + N.of_nat n).
+    { rewrite Eb6. destruct (rev l') as [|e r] eqn:ER.
+      - cbn. apply (f_equal (@length _)) in ER. rewrite rev_length in ER. cbn in ER. lia.
+      - cbn. apply rev_cons_last in ER.
+        assert (Hn : nth_error l' (length (rev r)) = Some e) by (rewrite ER, nth_error_app2, Nat.sub_diag by lia; reflexivity).
+        apply I1 in Hn. rewrite ER, app_length in Ln. cbn in Ln. lia. }
+    rewrite <- Eb5. apply core_restart_fin; try assumption.
+    + rewrite Eb1, Eb2. assumption.
+    + rewrite Eb1, Eb2, EL, Ln. reflexivity.
+    + lia.
+    + lia.
+    + rewrite Eb3, Eb4. assumption.
 Qed.
